@@ -355,7 +355,7 @@ BoxLastMonotone == [][\A i \in Honest : Forward(blast[i], blast'[i])]_vars
 (* C38: the proposer of a point, when honest, has one proposal for it; every honest maker has *)
 (* at most one proposal per point (variant = maker)                                            *)
 OneProposalPerPoint ==
-  \A p, q \in props : (Proposer(p[1], p[2]) \in Honest /\ p[1] = q[1] /\ p[2] = q[2] /\ p[3] \in {0, 1} /\ q[3] \in {0, 1}) => p = q
+  \A p, q \in props : (Proposer(p[1], p[2]) \in Honest /\ p[1] = q[1] /\ p[2] = q[2] /\ p[3] < 10 /\ q[3] < 10) => p = q
 
 (* liveness (no Byzantine node, timely proposals, fairness): the first height is eventually   *)
 (* decided everywhere                                                                          *)
